@@ -82,7 +82,7 @@ RULE = ("proxy: every op sequence up to the tier's length over {write a / b\\n /
         "then seeded random schedules (1-4 threads, up to 60 ops, data with several newlines, ESC, wide chars, raw on/off, "
         "default and create_app_session sessions, close()), half of them adversarial (arbitrary interleaving of stop / "
         "loop close / start) and half calm; chain: every op sequence up to the tier's length over {enter sync, enter open, "
-        "leave 0..2, stop, start, invalidate} + random; lock: random interleavings of up to 4 threads paused inside "
+        "leave 0..2, stop, start, invalidate, exit()} + random; lock: random interleavings of up to 4 threads paused inside "
         "`with self._lock:` (entry of _write/_flush and before they return), incl. calls made while the lock is held "
         "(must block until the holder leaves); soak: free-running writer threads on an unmodified StdoutProxy (no "
         "application / application throughout / application stopped and restarted on a new loop between phases), also "
@@ -91,10 +91,10 @@ RULE = ("proxy: every op sequence up to the tier's length over {write a / b\\n /
         "section, any soak case")
 EXHAUSTIVE = True
 EXHAUSTIVE_SCOPE = {
-    "quick": "proxy without app: all sequences len<=3 over 6 ops; with app: 5 prefixes x all sequences len<=2 over 8 ops; "
-             "chain: all sequences len<=3 over 8 ops",
-    "thorough": "proxy without app: all sequences len<=5 over 6 ops; with app: 5 prefixes x all sequences len<=4 over 8 ops; "
-                "chain: all sequences len<=4 over 8 ops",
+    "quick": "proxy without app: all sequences len<=3 over 6 ops; with app: 5 prefixes x all sequences len<=2 over 9 ops; "
+             "chain: all sequences len<=3 over 9 ops",
+    "thorough": "proxy without app: all sequences len<=5 over 6 ops; with app: 3 prefixes x all sequences len<=4 and 2 prefixes x len<=3 over 9 ops; "
+                "chain: all sequences len<=4 over 9 ops",
 }
 TRUSTED = ["harness/c20.py compares, after every scheduled step, the terminal events (erase / render / render-done / "
            "enable_autowrap+write+flush) received by a recording Vt100_Output and Renderer, _buffer, the queue items, the "
@@ -356,6 +356,8 @@ class Rig:
         self.gen = 0
         self.app = None
         self.app_task = None
+        self.exit_requested = False
+        self.real_future = None
         self.inp_cm = None
         self.writers = {}
         self.close_thread = None
@@ -543,10 +545,67 @@ class Rig:
         lt = self.cur_loop()
 
         async def go():
+            self._restore_future()
             self.app.exit()
             await self.app_task
 
         lt.call(go())
+
+    def _restore_future(self):
+        if self.exit_requested:
+            self.app.future = self.real_future
+            self.exit_requested = False
+            self.real_future = None
+
+    def is_done(self):
+        app = self.app
+        return bool(app is not None and self.session.app is app and app._is_running and app.is_done)
+
+    def request_exit(self):
+        """The exit-requested phase: `Application.exit()` has completed the future (`app.is_done`), `run_async`
+        has not resumed yet (`_is_running` still True, prompt still drawn).  In the real loop the phase lasts
+        until the wake-up of `run_async` is run; to keep it open across scheduled steps the harness puts a
+        completed future in `app.future` and hands the real one back right before the real `exit()` of the
+        `stop` step.  (`runexit` drives the same phase without this stand-in, in one real loop turn.)"""
+        app = self.app
+        if app is None or self.session.app is not app or not app._is_running or self.exit_requested:
+            return
+        lt = self.cur_loop()
+
+        async def go():
+            self.real_future = app.future
+            fake = asyncio.get_running_loop().create_future()
+            fake.set_result(None)
+            app.future = fake
+
+        lt.call(go())
+        self.exit_requested = True
+
+    def run_exit(self):
+        """one real loop turn: the oldest accepted callback, `Application.exit()` queued right behind it;
+        the task the callback creates then runs before `run_async` resumes"""
+        app = self.app
+        running = app is not None and self.session.app is app and app._is_running
+        if not running:
+            self.run_pending()
+            return
+        if not self.pending:
+            self.stop_app()
+            return
+        lt, cb, args, ctx, text = self.pending.pop(0)
+
+        def both():
+            ctx.run(cb, *args)
+            self._restore_future()
+            app.exit()
+
+        lt.loop.call_soon_threadsafe(both)
+
+        async def wait():
+            await self.app_task
+
+        lt.call(wait())
+        lt.barrier()
 
     def invalidate(self):
         """Application.invalidate() and the redraw it schedules"""
@@ -608,9 +667,9 @@ class Rig:
         lt = self.loops[-1] if self.loops else None
         lopen = 1 if (lt is not None and not lt.loop.is_closed()) else 0
         app = 1 if (self.session.app is not None and self.session.app._is_running) else 0
-        return ("buf=%s q=%s fl=%s pend=%s lost=%s app=%d loop=%d/%d" % (
+        return ("buf=%s q=%s fl=%s pend=%s lost=%s app=%d exit=%d loop=%d/%d" % (
             enc_str("".join(p._buffer)), q, self.fl_pc(), enc_list([x[4] for x in self.pending], enc_str),
-            enc_list(self.lost, enc_str), app, self.gen, lopen))
+            enc_list(self.lost, enc_str), app, 1 if self.is_done() else 0, self.gen, lopen))
 
     # -- teardown: never hangs
     def teardown(self):
@@ -745,6 +804,10 @@ def apply_proxy_op(rig, op):
         rig.settle()
     elif k == "inval":
         rig.invalidate()
+    elif k == "exit":
+        rig.request_exit()
+    elif k == "runexit":
+        rig.run_exit()
     else:
         raise ValueError(op)
 
@@ -1009,6 +1072,7 @@ class ChainRig(Rig):
         lt = self.cur_loop()
 
         async def go():
+            self._restore_future()
             self.app.exit()
             await lt._barrier(10)
 
@@ -1032,7 +1096,7 @@ class ChainRig(Rig):
             st.append("d" if ended else "b" if began else "w")
         app = 1 if (self.app is not None and self.app._is_running) else 0
         rit = 1 if (self.app is not None and self.app._running_in_terminal) else 0
-        return "app=%d rit=%d chain=%s" % (app, rit, "".join(st))
+        return "app=%d exit=%d rit=%d chain=%s" % (app, 1 if self.is_done() else 0, rit, "".join(st))
 
     def teardown(self):
         try:
@@ -1068,6 +1132,8 @@ def run_chain_case(case):
                 rig.cstart()
             elif k == "cinval":
                 rig.invalidate()
+            elif k == "cexit":
+                rig.request_exit()
             else:
                 raise ValueError(op)
             evs = filter_lifecycle(op, rig.take_events())
@@ -1461,9 +1527,9 @@ APP_PREFIXES = [
 
 
 def exhaustive_app(maxlen):
-    alpha = [["w", 1, "y\n"], ["fl"], ["run"], ["start"], ["stop"], ["closeloop"], ["newloop"], ["inval"]]
-    for pre in APP_PREFIXES:
-        for n in range(0, maxlen + 1):
+    alpha = [["w", 1, "y\n"], ["fl"], ["run"], ["start"], ["stop"], ["closeloop"], ["newloop"], ["inval"], ["exit"]]
+    for ip, pre in enumerate(APP_PREFIXES):
+        for n in range(0, (maxlen if ip < 3 or maxlen < 4 else maxlen - 1) + 1):
             for seq in itertools.product(alpha, repeat=n):
                 yield {"kind": "proxy", "raw": 0, "session": "default",
                        "ops": [list(o) for o in pre] + [list(o) for o in seq] + epilogue()}
@@ -1475,9 +1541,9 @@ def random_proxy(rng, nops):
     closed = False
     weights = rng.choice([
         {"w": 6, "f": 1, "fl": 6, "run": 2, "start": 1, "stop": 1, "newloop": 1, "closeloop": 1, "settle": 1, "close": 0,
-         "inval": 1},
+         "inval": 1, "exit": 1, "runexit": 1},
         {"w": 4, "f": 1, "fl": 5, "run": 3, "start": 2, "stop": 2, "newloop": 2, "closeloop": 2, "settle": 0, "close": 0,
-         "inval": 1},
+         "inval": 1, "exit": 2, "runexit": 1},
         {"w": 8, "f": 2, "fl": 8, "run": 0, "start": 0, "stop": 0, "newloop": 0, "closeloop": 0, "settle": 0, "close": 0},
         {"w": 5, "f": 1, "fl": 6, "run": 3, "start": 1, "stop": 1, "newloop": 1, "closeloop": 0, "settle": 1, "close": 1},
     ])
@@ -1517,17 +1583,19 @@ def random_calm_proxy(rng, nops):
             ops.append(["fl"])
         elif r < 0.91:
             ops.append(["run"])
-        elif r < 0.94:
+        elif r < 0.93:
             ops.append(["inval"])
+        elif r < 0.95:
+            ops.append(rng.choice([["exit"], ["runexit"]]))
         else:
             ops.append(["settle"])
-            ops.append(rng.choice([["stop"], ["start"], ["newloop"], ["closeloop"]]))
+            ops.append(rng.choice([["stop"], ["start"], ["newloop"], ["closeloop"], ["exit"]]))
     ops += epilogue()
     return {"kind": "proxy", "raw": rng.choice([0, 1]), "session": rng.choice(["default", "custom"]), "ops": ops}
 
 
 def exhaustive_chain(maxlen):
-    alpha = [["center", 1], ["center", 0], ["cstep", 0], ["cstep", 1], ["cstep", 2], ["cstop"], ["cstart"], ["cinval"]]
+    alpha = [["center", 1], ["center", 0], ["cstep", 0], ["cstep", 1], ["cstep", 2], ["cstop"], ["cstart"], ["cinval"], ["cexit"]]
     for n in range(0, maxlen + 1):
         for seq in itertools.product(alpha, repeat=n):
             yield {"kind": "chain", "session": "default", "ops": [["cstart"]] + [list(o) for o in seq]}
@@ -1545,8 +1613,10 @@ def random_chain(rng, nops):
             ops.append(["cstep", rng.randrange(max(1, n))])
         elif r < 0.87:
             ops.append(["cstop"])
-        elif r < 0.93:
+        elif r < 0.91:
             ops.append(["cinval"])
+        elif r < 0.95:
+            ops.append(["cexit"])
         else:
             ops.append(["cstart"])
     return {"kind": "chain", "session": rng.choice(["default", "custom"]), "ops": ops}
